@@ -22,13 +22,45 @@ type writeSite struct {
 }
 
 type loopFrame struct {
-	sites  map[string][]writeSite
-	coarse map[string]bool
+	sites       map[string][]writeSite
+	coarse      map[string]bool
+	fieldWrites map[string]map[int]bool // struct heaps: first-level fields stored to in the loop
+	wholeWrite  map[string]bool         // struct heaps: some store replaces a whole object (or unknown)
+}
+
+// firstField returns the field index closest to root on the address chain addr (root excluded), or -1.
+func firstField(addr ssa.Value, root ssa.Value) int {
+	f := -1
+	v := addr
+	for v != root {
+		switch x := v.(type) {
+		case *ssa.FieldAddr:
+			f = x.Field
+			v = x.X
+		case *ssa.IndexAddr:
+			f = -1
+			v = x.X
+		default:
+			return -1
+		}
+	}
+	return f
 }
 
 func (c *FnCtx) computeLoopFrame(li *loopInfo) *loopFrame {
 	g := c.g
-	lf := &loopFrame{sites: map[string][]writeSite{}, coarse: map[string]bool{}}
+	lf := &loopFrame{sites: map[string][]writeSite{}, coarse: map[string]bool{}, fieldWrites: map[string]map[int]bool{}, wholeWrite: map[string]bool{}}
+	noteField := func(k string, addr, root ssa.Value) {
+		f := firstField(addr, root)
+		if f < 0 {
+			lf.wholeWrite[k] = true
+			return
+		}
+		if lf.fieldWrites[k] == nil {
+			lf.fieldWrites[k] = map[int]bool{}
+		}
+		lf.fieldWrites[k][f] = true
+	}
 	add := func(k string, ws writeSite) {
 		ws.key = k
 		lf.sites[k] = append(lf.sites[k], ws)
@@ -47,6 +79,7 @@ func (c *FnCtx) computeLoopFrame(li *loopInfo) *loopFrame {
 							add(k, writeSite{})
 						} else {
 							add(k, writeSite{ref: r})
+							noteField(k, x.Addr, root)
 						}
 					}
 				case *ssa.IndexAddr:
@@ -58,6 +91,7 @@ func (c *FnCtx) computeLoopFrame(li *loopInfo) *loopFrame {
 					if pt, ok := root.Type().Underlying().(*types.Pointer); ok {
 						k, _ := g.heapKeyFor(pt.Elem())
 						add(k, writeSite{ref: root})
+						noteField(k, x.Addr, root)
 					}
 				}
 			case *ssa.Alloc:
@@ -224,7 +258,23 @@ func (c *FnCtx) invariantAddr(v ssa.Value, li *loopInfo, st *State, depth int) (
 	case *ssa.FieldAddr:
 		base, ok := c.invariantAddr(x.X, li, st, depth+1)
 		if !ok {
-			return nil, false
+			// the struct heap is written in the loop, but not this field
+			pt, isPtr := x.X.Type().Underlying().(*types.Pointer)
+			if !isPtr || li.frame == nil {
+				return nil, false
+			}
+			k, _ := c.g.heapKeyFor(pt.Elem())
+			if li.frame.coarse[k] || li.frame.wholeWrite[k] || li.frame.fieldWrites[k][x.Field] {
+				return nil, false
+			}
+			if _, isStruct := pt.Elem().Underlying().(*types.Struct); !isStruct {
+				return nil, false
+			}
+			ref, ok2 := c.invariantTerm(x.X, li, st, depth+1)
+			if !ok2 {
+				return nil, false
+			}
+			base = &Addr{kind: aHeap, ref: ref, rootType: pt.Elem(), typ: pt.Elem()}
 		}
 		st0, ok := types.Unalias(base.typ).Underlying().(*types.Struct)
 		if !ok {
